@@ -40,6 +40,8 @@ def show(v):
         val = v.get("s") or "%d/2^%d" % tuple(v["q"])
     elif t == "time":
         val = "t+%s" % v.get("ns", v.get("sec"))
+        if "zn" in v and (v["zn"], v["zo"]) != ("UTC", 0):
+            val += "@%s%+d" % (v["zn"], v["zo"])
     elif t == "big":
         val = v["text"]
     else:
@@ -87,11 +89,21 @@ def judge(ctx, cases):
         locus = "/".join(str(x) for x in b["loc"])
         if case["ev"] == "conv":
             wit = {"op": case["op"], "input": show(L["in"]), "result": show(L["res"])}
-            if b["kind"] == "alias":
+            if L.get("opt", "none") != "none":
+                # option sets (Convert.tla B6): the experiments are chosen by convexec from the real input and result
+                wit["options"] = L["opt"]
+                if b["kind"] != "twin-differs":
+                    b["api"] = "%s{%s}" % (b["api"], L["opt"])
+                if b["kind"] == "input-changed":
+                    wit["input_after"] = show(L["in1"])
+                case = dict(case, muts=[])
+            elif b["kind"] == "alias":
                 # keep only the mutation experiments of that side and kind in the replay case
                 case = dict(case, muts=[m for m in case["muts"] if m["side"] == b["loc"][1] and m["kind"] == b["loc"][3]])
             else:
                 case = dict(case, muts=[])
+            if b["kind"] == "twin-differs":
+                wit = {"input": show(L["in"]), "alt.Generify": show(L["res"]), "alt.GenAlter": show(L["twin"])}
         elif case["ev"] == "write":
             wit = {"tree": show(case["tree"])}
         else:
@@ -142,11 +154,17 @@ def main(ctx):
                        "every container cell of the input and of the result x every enabled mutation (set element, append, set key, "
                        "delete key); the harness performs each experiment on fresh real data and logs typed projections before "
                        "and after; TLC replays Build/Copy|InPlace/Mutate of Convert.tla and judges Preserve, InputKept, "
-                       "NoInterference. Plus seeded random trees (boundary integers, float32, nanosecond times, big numbers), "
+                       "NoInterference. A fixed block runs alt.Decompose and alt.Dup under 16 option sets that change the conversion (a Converter with "
+                       "only Int / Float / String / Map / Array functions, combinations, the stock Mongo / TimeRFC3339 / TimeNano converters, "
+                       "OmitNil, OmitEmpty, TimeFormat, TimeMap, TimeWrap) on every value the set converts nested at depth 0..3, with every container "
+                       "of the real input and result x every mutation: TLC judges InputKept and NoInterference there (not the value). Time leaves "
+                       "carry their location (UTC, named and unnamed fixed zones); every alt.Generify result is compared exactly with alt.GenAlter's. "
+                       "Plus seeded random trees (boundary integers, float32, nanosecond times, big numbers), "
                        "writer cross-checks on every subtree (oj.JSON, sen.String, pretty.JSON; simple vs gen) and parser "
                        "cross-checks on random JSON texts (number forms incl. seeded float literals with 15..19 significant digits with and without exponent, escaped strings followed by plain ones, quotes padded to the last byte of a 4096-byte read) through Parse and through ParseReader with whole, 1-, 3-, 7-byte and half reads. distinct_nontrivial = number of distinct cases (operation x tree x experiments, writer trees, texts) other than a bare null.")
     ctx.assumptions += [
-        "options fixed to keep nulls and times: ojg.Options{OmitNil:false, TimeFormat:\"time\"}",
+        "options keep nulls and times: ojg.Options{OmitNil:false, TimeFormat:\"time\"}; under the 16 other option sets only input preservation and non-interference are judged (what the result denotes there is the converter specification's statement)",
+        "a time leaf is its instant and its location (zone name and offset); monotonic clock readings are not modelled",
         "integer widths normalise to int64/gen.Int, float32 to float64; alt.Decompose/Dup/Alter may return the nicer float64 that rounds to the same float32",
         "a big number may come back as a big number or as a string with the same text (gen.Big.Simplify documents the string)",
         "in-place operations (GenAlter, Node.Alter, alt.Alter) are only required to preserve the value; their input is not looked at again",
